@@ -38,13 +38,31 @@ func (g *dgen) chance(kind, topic string, num, hi, den int) bool {
 
 func (g *dgen) feat(f string) { g.feats[f] = true }
 
+// names is the pool attribute names are drawn from: four names only under focus "shared", so that the same
+// name (and the same error-message context such as "body.name") carries different constraints in different
+// methods and designs of one batch, which all run in one process
+func (g *dgen) names() []string {
+	if g.focus == "shared" {
+		return attrNames[:4]
+	}
+	return attrNames
+}
+
 func fp(f float64) *float64 { return &f }
 func ip(i int) *int         { return &i }
 
 // validation draws a validation block compatible with kind (or nil).
 func (g *dgen) validation(kind string, loc Loc) *spec.Validation {
 	t := g.t
-	if t.Draw("has-validation", 3) != 1 {
+	if g.focus == "shared" && kind == spec.String {
+		if t.Draw("has-validation", 3) == 0 {
+			return nil
+		}
+		if t.Draw("shared-pattern", 3) != 0 {
+			g.feat("val:pattern")
+			return &spec.Validation{Pattern: designPatterns[t.Draw("pattern", len(designPatterns))]}
+		}
+	} else if t.Draw("has-validation", 3) != 1 {
 		return nil
 	}
 	v := &spec.Validation{}
@@ -230,10 +248,10 @@ func (g *dgen) newUserType(depth int) *spec.UserType {
 func (g *dgen) object(n, depth int, loc Loc) *spec.Type {
 	t := g.t
 	o := &spec.Type{Kind: spec.Object}
-	off := t.Draw("name-off", len(attrNames))
+	off := t.Draw("name-off", len(g.names()))
 	for i := 0; i < n; i++ {
 		f := g.bodyType(depth)
-		f.Name = attrNames[(off+i*3)%len(attrNames)]
+		f.Name = g.names()[(off+i*3)%len(g.names())]
 		for o.Field(f.Name) != nil {
 			f.Name += "x"
 		}
@@ -428,9 +446,9 @@ func (g *dgen) method(svc *spec.Service, idx int) *spec.Method {
 	} else if t.Draw("has-payload", 8) != 7 {
 		p := &spec.Type{Kind: spec.Object}
 		nf := 1 + t.Draw("npayload", 6)
-		off := t.Draw("name-off", len(attrNames))
+		off := t.Draw("name-off", len(g.names()))
 		for i := 0; i < nf; i++ {
-			name := attrNames[(off+i*5)%len(attrNames)]
+			name := g.names()[(off+i*5)%len(g.names())]
 			for p.Field(name) != nil {
 				name += "x"
 			}
@@ -560,9 +578,9 @@ func (g *dgen) method(svc *spec.Service, idx int) *spec.Method {
 		r := &spec.Type{Kind: spec.Object}
 		resp := &spec.Response{Status: []int{200, 201, 202}[t.Pick("status", 4, 1, 1)], Headers: map[string]string{}, Cookies: map[string]string{}}
 		nf := 1 + t.Draw("nresult", 5)
-		off := t.Draw("name-off", len(attrNames))
+		off := t.Draw("name-off", len(g.names()))
 		for i := 0; i < nf; i++ {
-			name := attrNames[(off+i*7)%len(attrNames)]
+			name := g.names()[(off+i*7)%len(g.names())]
 			for r.Field(name) != nil {
 				name += "y"
 			}
@@ -1075,7 +1093,7 @@ func (g *dgen) newResultType() *spec.UserType {
 	u := &spec.UserType{Name: fmt.Sprintf("RT%dThing", g.seq), IsResult: true, Identifier: fmt.Sprintf("application/vnd.rt%d", g.seq)}
 	o := &spec.Type{Kind: spec.Object}
 	n := 2 + t.Draw("rt-nfields", 4)
-	off := t.Draw("name-off", len(attrNames))
+	off := t.Draw("name-off", len(g.names()))
 	for i := 0; i < n; i++ {
 		var f *spec.Attr
 		if t.Draw("rt-arr", 5) == 0 {
@@ -1083,7 +1101,7 @@ func (g *dgen) newResultType() *spec.UserType {
 		} else {
 			f = g.prim(LocBody)
 		}
-		f.Name = attrNames[(off+i*3)%len(attrNames)]
+		f.Name = g.names()[(off+i*3)%len(g.names())]
 		for o.Field(f.Name) != nil {
 			f.Name += "v"
 		}
